@@ -4,7 +4,11 @@
    (pure = 1 and the three arguments after the call are the arguments), the graph is well-formed, and
      - in general: the observation is what the model of the code (Model/Subgraph.v) returns: status 2
        (panic) and no rows when the model panics, else status 0 and the observed rows (NodeMap, Out, EdgeMap) are,
-       field for field, the rows of the model's result;
+       field for field, the rows of the model's result; for SubgraphKeep (group hM) the model's value on EVERY
+       request is stated in closed form, keep_any of Proofs/SubgraphAny.v: panic iff a listed node is outside the
+       graph or listed twice, a requested edge does not exist in g, or edges are requested with no node kept;
+       otherwise new node i = nodes[i] carries, in request order, the requests whose source has position i in the
+       node list - a source that is not kept counting as position 0 - with targets translated the same way;
      - SubgraphKeep on a WELL-FORMED request (no negative number, keep_wf: distinct existing nodes, every
        requested edge joins kept nodes): status 0 and the rows are the rows of a subgraph s that satisfies
        the specification of C18_subgraph_keep_spec (NodeMap = the request, each node carries exactly the
@@ -15,7 +19,7 @@
        capacity panics).  This covers every request.
    Closed under the global context. *)
 From Coq Require Import Sorted.
-From MM Require Import Base.Num Base.GCGraph Model.Subgraph Proofs.Subgraph Check.C18 Proofs.CheckBase Proofs.CheckC18Base.
+From MM Require Import Base.Num Base.GCGraph Model.Subgraph Proofs.Subgraph Proofs.SubgraphAny Check.C18 Proofs.CheckBase Proofs.CheckC18Base.
 Local Open Scope Z_scope.
 
 Definition enc_sgobs (o : sg_obs) : list Z := so_old o :: enc_Zs (so_out o) ++ enc_Zs (so_emap o).
@@ -83,7 +87,7 @@ Definition keep_case_ok (rest : list Z) : Prop :=
     let nodesN := NsZ nodes in
     let edgesN := map (fun e => (Z.to_N (fst e), Z.to_N (snd e))) edges in
     let neg := existsb (fun x => x <? 0) (nodes ++ eflat) in
-    sg_matches (if neg then None else subgraph_keep g nodesN edgesN) status obs /\
+    sg_matches (if neg then None else keep_any g nodesN edgesN) status obs /\
     (neg = false -> keep_wf g nodesN edgesN ->
        status = 0 /\ exists s, Forall2 sg_row s obs /\ keep_spec_concl g nodesN edgesN s) /\
     (* a node outside the graph or listed twice: the call panics *)
@@ -101,7 +105,7 @@ Proof.
   split; [reflexivity|]. split; [reflexivity|].
   exists a, a0, edges, a2, a3. cbv zeta.
   split; [match goal with E : plist_any p_sgobs _ = Some _ |- _ => apply (plist_any_layout _ _ p_sgobs_layout) in E end; lay; subst; rewrite ?app_nil_r; reflexivity|].
-  split; [exact Ewf|]. rewrite existsb_app. split; [exact M|]. split.
+  split; [exact Ewf|]. rewrite existsb_app. split; [rewrite <- subgraph_keep_any; exact M|]. split.
   - intros Hneg Hwf. rewrite Hneg in M.
     destruct (subgraph_keep_spec _ _ _ Hwf) as (s & Es & Hs). rewrite Es in M. destruct M as [M1 M2].
     split; [exact M1|]. exists s. split; [exact M2|exact Hs].
